@@ -6,6 +6,7 @@
    (Generated/C09Lock.v). *)
 From Apko Require Import Base.Prelude Base.Regex Base.C12Lib Model.Version Model.Lock Spec.LockSpec
   Proofs.LockProofs Generated.Regexes Generated.VersionConsts Generated.C09Lock.
+From Apko Require Model.Resolver Spec.ResolveSpec Proofs.ResolveTheorems Proofs.LockFixpointResolver.
 From Coq Require Import Permutation Sorted.
 Open Scope string_scope. Open Scope list_scope.
 
@@ -176,6 +177,58 @@ Theorem c09_fixpoint_partial : forall (U : list cand) (resolve : list string -> 
 Proof. exact fixpoint_partial. Qed.
 Print Assumptions c09_fixpoint_partial.
 
+(* the fixpoint against the RESOLVER MODEL (Model/Resolver.v = repo.go +
+   filterPackages; resolve U W dq0 scheds as in Properties/C02.v).  The three
+   hypotheses of c09_fixpoint_partial, looked at for that model inside the
+   envelope of c02_closed_partial (Spec.ResolveSpec.envelope_b) with members
+   whose names and versions survive the lock's  name=version  text (lockable):
+     sound    PROVED: the result is closed (all four clauses, C02);
+     minimal  PROVED as an upper bound (LockFixpointResolver.resolve_upper): a
+              result holds nothing but listed providers of world entries and
+              of positive dependencies of its members;
+     finds the solution of an exact lock   FALSE (c09_fixpoint_resolver_refuted).
+   Proved here: the lock world  name=version  of the result (lock_of, in the
+   order of the result) is again inside the envelope; envelope hypothesis
+   "nothing else in U is admitted by a member's entry" of c09_fixpoint_partial
+   holds by itself (one provider per name); and WHENEVER the lock resolves — for
+   every schedule — it resolves to exactly the members it was derived from.
+   PARTIAL: that the lock does resolve is not part of the statement; it is
+   false in general (next theorem) and not proved under the extra hypothesis
+   "no member is excluded by a member's conflict entry" (see notes/C09.md). *)
+Theorem c09_fixpoint_resolver_partial : forall (U : Resolver.universe) W dq0 scheds S,
+  ResolveSpec.envelope_b U W = true -> Resolver.resolve U W dq0 scheds = Ok S ->
+  (forall j, In j S -> LockFixpointResolver.lockable (nth j U Resolver.dummy_pkg)) ->
+  let UL := LockFixpointResolver.lock_universe U dq0 in
+  let member := LockFixpointResolver.cand_at U dq0 in
+  let L := LockFixpointResolver.lock_world U dq0 S in
+  ResolveSpec.Closed U W (ResolveTheorems.pkgs_of U S) /\
+  L = lock_of (List.map member S) /\
+  ResolveSpec.envelope_b U L = true /\
+  (forall j k', In j S -> In k' UL -> admitted UL (lock_entry_of (member j)) k' -> k' = member j) /\
+  (forall scheds' S', Resolver.resolve U L dq0 scheds' = Ok S' -> forall j, In j S' <-> In j S).
+Proof. exact LockFixpointResolver.fixpoint_resolver_partial_lemma. Qed.
+Print Assumptions c09_fixpoint_resolver_partial.
+
+(* REFUTED inside both envelopes (finding C09-F6, replayed on the real resolver
+   by the corpora of the c02 and c09 harnesses): a -> b, c; c -> !b; world [a].
+   The conflict entry of c is applied when c is expanded, after b was chosen
+   for a: the result [b c a] is closed, every member answers its own entry
+   (hypothesis (i) of c09_fixpoint_partial), and its lock
+   [b=1.0 c=1.0 a=1.0] fails to resolve in every order of its entries, for
+   every schedule. *)
+Theorem c09_fixpoint_resolver_refuted :
+  let U := LockFixpointResolver.U_conflict in let W := ["a"] in let S := [1; 2; 0]%nat in
+  ResolveSpec.envelope_b U W = true /\ Resolver.resolve U W [] [] = Ok S /\
+  ResolveSpec.Closed U W (ResolveTheorems.pkgs_of U S) /\
+  (forall j, In j S -> LockFixpointResolver.lockable (nth j U Resolver.dummy_pkg)) /\
+  (forall j, In j S -> admitted (LockFixpointResolver.lock_universe U [])
+                                (lock_entry_of (LockFixpointResolver.cand_at U [] j)) (LockFixpointResolver.cand_at U [] j)) /\
+  LockFixpointResolver.lock_world U [] S = ["b=1.0"; "c=1.0"; "a=1.0"] /\
+  Forall (fun L => forall scheds, Resolver.resolve U L [] scheds = Err)
+         (LockFixpointResolver.all_orders (LockFixpointResolver.lock_world U [] S)).
+Proof. exact LockFixpointResolver.fixpoint_finds_locked_refuted. Qed.
+Print Assumptions c09_fixpoint_resolver_refuted.
+
 (* the validators run on the implementation's observed outputs decide the
    readable statements *)
 Theorem c09_validators_decide :
@@ -210,6 +263,19 @@ Proof. vm_compute. repeat split. Qed.
 
 Example c09_clean_example : clean_name "lib-x" /\ clean_version "1.2.3_rc1-r4".
 Proof. split; vm_compute; repeat split; discriminate. Qed.
+
+(* the hypotheses of c09_fixpoint_resolver_partial are satisfiable, and there the lock does resolve:
+   a -> b>0.5, v; b provides v=2; world [a v] *)
+Example c09_fixpoint_resolver_example :
+  let U := [ResolveTheorems.wp "a" "1.0" ["b>0.5"; "v"] [] []; ResolveTheorems.wp "b" "1.0" [] ["v=2"] []] in
+  ResolveSpec.envelope_b U ["a"; "v"] = true /\ Resolver.resolve U ["a"; "v"] [] [] = Ok [1; 0]%nat /\
+  LockFixpointResolver.lock_world U [] [1; 0]%nat = ["b=1.0"; "a=1.0"] /\
+  Resolver.resolve U ["b=1.0"; "a=1.0"] [] [] = Ok [1; 0]%nat /\
+  (forall j, In j [1; 0]%nat -> LockFixpointResolver.lockable (nth j U Resolver.dummy_pkg)).
+Proof.
+  cbv zeta. split; [vm_compute; reflexivity|]. split; [vm_compute; reflexivity|]. split; [vm_compute; reflexivity|].
+  split; [vm_compute; reflexivity|]. intros j [<-|[<-|[]]]; (split; [|split]); vm_compute; repeat split; discriminate.
+Qed.
 
 (* the hypotheses of c09_fixpoint_partial are consistent, on a one-package universe *)
 Example c09_fixpoint_hypotheses_consistent :
